@@ -138,3 +138,26 @@ def fold(ns, ro_text, msg_texts, strict, check_unchanged=None):
         if exc:
             break
     return {'text': str(ro), 'exc': exc, 'failed': failed, 'warns': other}
+
+
+def pool_nasty():
+    """Schema-shaped but self-referential / blank / repeated / unresolvable messages (C12)."""
+    g = gen
+    sid = lambda i: g.id_tag('storyID', i)        # noqa
+    iid = lambda i: g.id_tag('itemID', i)         # noqa
+    return {
+        'swap-A-A': lambda n: g.msg_ea('SWAP', sources=[sid('A'), sid('A')], target_present=False, msg_id=n),
+        'itemswap-a-a': lambda n: g.msg_ea('SWAP', 'A', sources=[iid('a'), iid('a')], msg_id=n),
+        'move-A-before-A': lambda n: g.msg_story_move('A', 'A', msg_id=n),
+        'eamove-A,A-before-C': lambda n: g.msg_ea('MOVE', 'C', sources=[sid('A'), sid('A')], msg_id=n),
+        'eamove-C-before-C': lambda n: g.msg_ea('MOVE', 'C', sources=[sid('C')], msg_id=n),
+        'itemmove-a,a': lambda n: g.msg_item_move_multiple('A', ['a', 'a'], 'c', msg_id=n),
+        'itemmove-target-in-sources': lambda n: g.msg_item_move_multiple('A', ['c', 'a'], 'c', msg_id=n),
+        'delete-blank': lambda n: g.msg_story_delete([BLANK, 'A', BLANK], msg_id=n),
+        'replace-blank': lambda n: g.msg_story_replace(BLANK, [g.story_xml('F', 0)], msg_id=n),
+        'send-blank': lambda n: g.msg_story_send(BLANK, msg_id=n),
+        'iteminsert-unknown-story': lambda n: g.msg_item_insert(UNKNOWN, BLANK, [g.item_xml('f', 0, 'x')], msg_id=n),
+        'append-untimed': lambda n: g.msg_story_append([g.story_xml('E', 0, timing='nometa')], msg_id=n),
+        'insert-before-AB': lambda n: g.msg_story_insert('AB', [g.story_xml('F', 0, timing='none'), g.story_xml('A', 0)], msg_id=n),
+        'roDelete': lambda n: g.msg_ro_delete(msg_id=n),
+    }
